@@ -11,7 +11,8 @@
 (* For every call TLC (1) validates the oracle's binder model against CPython ("oracle:binder"),   *)
 (* (2) judges the real result with the property RefClause ("viol:<clause>", or "dev:<class>" for a *)
 (* named known deviation), (3) compares the real result and the real steps with the               *)
-(* implementation-shaped machine ("drift:result", "drift:steps").  "@k" = index of the call.       *)
+(* implementation-shaped machine ("drift:result", "drift:steps"; the steps are compared for every  *)
+(* call, also next to a viol:/dev: verdict).  "@k" = index of the call.                            *)
 EXTENDS Overloads, Json, IOUtils
 
 Obs == ndJsonDeserialize(IOEnv.TRACE_FILE)
@@ -19,6 +20,9 @@ VARIABLE l
 
 Say(tid, v, k) == PrintT(<<"VERDICT", tid, v \o "@" \o ToString(k)>>)
 
+\* the verdict on the real result.  A named known deviation excuses a violated clause only when the
+\* real result is exactly what the model of the deviating mechanism predicts: anything else inside a
+\* deviating region is a violation of its own.
 CallVerdict(sigs, oc) ==
     LET c == [sigs |-> sigs, call |-> oc.call]
         real == Result(oc.real.st, oc.real.ty, oc.real.anyk, oc.real.code)
@@ -26,17 +30,29 @@ CallVerdict(sigs, oc) ==
         clause == RefClause(c, real)
     IN IF \E i \in 1..Len(sigs) : RefBinds(sigs[i], oc.call) # oc.pybind[i] THEN "oracle:binder"
        ELSE IF ~InProperty(c) THEN (IF real # model.res THEN "drift:result" ELSE "ok")
-       ELSE IF clause # "ok" THEN (IF Excused(c, clause) THEN "dev:" \o DevClass(c) ELSE "viol:" \o clause)
+       ELSE IF clause # "ok" THEN (IF Excused(c, clause) /\ real = model.res THEN "dev:" \o DevClass(c)
+                                  ELSE "viol:" \o clause)
        ELSE IF real # model.res THEN "drift:result"
-       ELSE IF oc.steps # model.steps THEN "drift:steps"
        ELSE "ok"
+
+\* the classification of every CallReturn of the real second pass (OverloadStep events: error / clean /
+\* any / union / union_any per overload tried) against the machine's steps -- judged whatever the
+\* verdict on the result is, so that a mis-filed step shows even where the final type is the same
+StepsVerdict(sigs, oc) ==
+    LET c == [sigs |-> sigs, call |-> oc.call]
+    IN IF \E i \in 1..Len(sigs) : RefBinds(sigs[i], oc.call) # oc.pybind[i] THEN "ok"      \* reported above
+       ELSE IF oc.real.st \notin {"ok", "err"} THEN "ok"                                  \* raised: reported above
+       ELSE IF oc.steps # ImplResolve(c).steps THEN "drift:steps" ELSE "ok"
 
 TInit == l = 1 /\ Init
 TNext ==
     /\ l <= Len(Obs)
     /\ LET o == Obs[l]
        IN \A k \in 1..Len(o.calls) :
-            LET v == CallVerdict(o.sigs, o.calls[k]) IN IF v = "ok" THEN TRUE ELSE Say(o.tid, v, k)
+            LET v == CallVerdict(o.sigs, o.calls[k])
+                w == StepsVerdict(o.sigs, o.calls[k])
+            IN /\ IF v = "ok" THEN TRUE ELSE Say(o.tid, v, k)
+               /\ IF w = "ok" THEN TRUE ELSE Say(o.tid, w, k)
     /\ l' = l + 1
     /\ UNCHANGED vars
 =============================================================================
